@@ -1,6 +1,7 @@
 package vc
 
 import (
+	"os"
 	"fmt"
 	"go/token"
 	"go/types"
@@ -30,6 +31,8 @@ type FuncResult struct {
 	Paths       int
 	Instrs      int
 	Returns     []*pcNode // path conditions of returning paths (vacuity check)
+	Covers      map[string][]coverInst // per ensures clause "A ==> B": (return path, A) pairs -- A must be reachable on some path
+	CoverOrder  []string
 	EntryPC     *pcNode
 	Exec        *Exec
 	GenTime     time.Duration
@@ -186,10 +189,24 @@ func (e *Engine) GenVCs(fn *ssa.Function, fc *FuncContract) (res *FuncResult) {
 			continue
 		}
 		res.Returns = append(res.Returns, o.St.pc)
+		if os.Getenv("VCHECK_DEBUG") != "" {
+			n, np := 0, 0
+			for _, t := range o.St.pcList() {
+				n++
+				if strings.Contains(t.String(), "path!") {
+					np++
+				}
+			}
+			fmt.Fprintf(os.Stderr, "  [return path: %d pc terms, %d mention merge guards]\n", n, np)
+		}
 		if fc == nil {
 			continue
 		}
-		sc := &specScope{x: x, fr: fr, st: o.St, old: fr.entry, results: map[string]Value{}, bound: map[string]Value{}}
+		pfr := fr
+		if o.Fr != nil && o.Fr.fn == fn && o.Fr.depth == fr.depth {
+			pfr = o.Fr // this path's bindings of local names
+		}
+		sc := &specScope{x: x, fr: pfr, st: o.St, old: fr.entry, results: map[string]Value{}, bound: map[string]Value{}}
 		// in postconditions parameter names denote the values passed in (as at call sites), whatever
 		// the body did to its local copies or shadowed them with
 		for i, p := range fn.Params {
@@ -207,9 +224,27 @@ func (e *Engine) GenVCs(fn *ssa.Function, fc *FuncContract) (res *FuncResult) {
 		for _, en := range fc.Ensures {
 			v := x.evalSpec(sc, en.Expr)
 			x.oblige(nil, o.St, "post", en.Label, fn.Pos(), v.L[0])
+			if b, ok := en.Expr.(*EBin); ok && b.Op == "==>" {
+				func() {
+					defer func() { recover() }()
+					a := x.evalSpec(sc, b.X)
+					if res.Covers == nil {
+						res.Covers = map[string][]coverInst{}
+					}
+					if _, seen := res.Covers[en.Label]; !seen {
+						res.CoverOrder = append(res.CoverOrder, en.Label)
+					}
+					res.Covers[en.Label] = append(res.Covers[en.Label], coverInst{PC: o.St.pc, Cond: a.L[0]})
+				}()
+			}
 		}
 	}
 	return res
+}
+
+type coverInst struct {
+	PC   *pcNode
+	Cond *Term
 }
 
 var debugPanics = false
